@@ -47,6 +47,7 @@ RULE = (
     "k-th of E data events raising (Exception and BaseException), and the same through the sync API; thorough = every k, "
     "quick = a seeded sample per workload. Non-trivial = the fault actually fired while at least one template async "
     "generator had been started; distinct = digest(program, entry, mode, api, k, task trace)."
+    ' Environment classes Environment / NativeEnvironment / SandboxedEnvironment; environment globals (awaitable callable, pass_context callable, object with a counting __str__); mode sync-api-early-close (a sync consumer stops after k chunks); one run in three has a peer render task of the same template; engine-owned async generators (jinja2 modules other than filters.py) are asserted like template generators.'
 )
 ASSUMPTIONS = [
     "template async generators are recognised by co_filename '<template>' at CPython's asyncgen firstiter hook",
@@ -78,6 +79,8 @@ def setup() -> None:
 
 
 def _kind(co_name: str) -> str:
+    if co_name.startswith("peer:"):
+        co_name = co_name[5:]
     if co_name.startswith("engine:"):
         return "engine"
     if co_name == "root":
@@ -114,6 +117,9 @@ def run(tape: Tape) -> Outcome:
         fault_exc = PrivateFault("injected") if exck == 0 else PrivateAbort("injected")
     events = Events(fault_at=k if fault_exc is not None else 0, exc=fault_exc)
     data = make_async_data(tape, events)
+    peer = tape.draw(3, "m") == 2 and mode in (0, 1, 2, 3)
+    peer_data = make_async_data(tape, Events(), gate_stream="g2", data_stream="d2") if peer else None
+    out.count("runs_with_peer_render", 1 if peer else 0)
     cfg_key = ("c36", ae, lc, envcls)
     from jinja2.nativetypes import NativeEnvironment
     from jinja2.sandbox import SandboxedEnvironment
@@ -225,10 +231,26 @@ def run(tape: Tape) -> Outcome:
                             await agen.aclose()
                         return "".join(map(str, chunks))
                     finally:
-                        info["open_at_finish"] = loop.open_template_generators()
+                        info["open_at_finish"] = loop.open_template_generators("render")
+
+                async def peer_wrapper():
+                    # a second render of the same template on the same environment (shared template / module caches),
+                    # complete and unfaulted; it must close its own generators too
+                    try:
+                        tmpl = env.get_template(entry)
+                        return await tmpl.render_async(**peer_data)
+                    except asyncio.CancelledError:
+                        raise
+                    except BaseException as e:  # noqa: BLE001 - its outcome is not judged here
+                        e.with_traceback(None)
+                        return None
+                    finally:
+                        info["peer_open_at_finish"] = loop.open_template_generators("peer")
 
                 async def main():
                     bg = [loop.create_task(noise_task(i), name=f"bg{i}") for i in range(noise)]
+                    if peer:
+                        bg.append(loop.create_task(peer_wrapper(), name="peer"))
                     rt = loop.create_task(render_wrapper(), name="render")
                     if mode == 2:
                         def on_step(owner: str, n: int) -> None:
@@ -247,6 +269,12 @@ def run(tape: Tape) -> Outcome:
                     except BaseException as e:  # noqa: BLE001
                         r = ("raised", e)
                     loop.on_step = None
+                    for b in bg:
+                        if b.get_name() == "peer" and not b.done():
+                            try:
+                                await asyncio.wait_for(asyncio.shield(b), timeout=1e7)  # virtual seconds
+                            except BaseException:  # noqa: BLE001
+                                pass
                     for b in bg:
                         b.cancel()
                     if bg:
@@ -320,7 +348,7 @@ def run(tape: Tape) -> Outcome:
     if stall:
         out.violate(("stall", MODES[mode]), stall=stall)
         return out
-    open_fin = info.get("open_at_finish") or []
+    open_fin = (info.get("open_at_finish") or []) + ["peer:" + n for n in (info.get("peer_open_at_finish") or [])]
     for lp in loops:
         if mode in (4, 5, 6):
             open_fin = open_fin + getattr(lp, "open_at_shutdown", []) + getattr(lp, "open_at_close", [])
@@ -356,6 +384,12 @@ def run(tape: Tape) -> Outcome:
     if fired and started:
         out.case = digest([P.templates, entry, mode, api, k, exck, trace])
     return out
+
+
+
+from sim.core import guarded as _guarded  # noqa: E402
+
+run = _guarded(run)
 
 
 def unit(index: int, seed: int, tier: str):
